@@ -12,12 +12,14 @@ def run():
     work = os.path.join(ROOT, "work", "selftest-flow")
     os.makedirs(work, exist_ok=True)
     f = {"kind": "for", "ctx": "top", "a": 3, "ua": "in", "b": 96, "ub": "px", "incl": 0}       # from 3in to 96px -> 3in 2in
-    i = {"kind": "if", "ctx": "fn", "conds": ["null", "0", "true"], "else": 1}                   # 0 is truthy -> branch 2
+    i = {"kind": "if", "ctx": "fn", "conds": ["null", "0", "true"], "else": 1, "ncond": "-"}                   # 0 is truthy -> branch 2
     e = {"kind": "each", "ctx": "mixin", "n": 2, "shape": "comma", "isep": "space", "items": [3, 0]}   # (a11 a12 a13, a2)
     w = {"kind": "while", "ctx": "top", "conds": ["str_empty", "()", "null"]}
+    # @if null {1} @else { @if false {3} @else {4} 2 }  -> the whole @else block runs: 4 then 2
+    n = {"kind": "if", "ctx": "mixin", "conds": ["null"], "else": 3, "ncond": "false"}
     x = {"kind": "for", "ctx": "top", "a": 1, "ua": "px", "b": 3, "ub": "s", "incl": 1}          # incompatible -> error
     good = [ev(f, "ok", [{"n": 3, "u": "in"}, {"n": 2, "u": "in"}], 0), ev(i, "ok", [2], 1),
-            ev(e, "ok", [[["a11"], ["a12"]], [["a2"], ["null"]]], 2), ev(w, "ok", [1, 2], 3), ev(x, "err", [], 4)]
+            ev(e, "ok", [[["a11"], ["a12"]], [["a2"], ["null"]]], 2), ev(w, "ok", [1, 2], 3), ev(x, "err", [], 4), ev(n, "ok", [4, 2], 5)]
     bad = [dict(g) for g in good]
     bad[0] = ev(f, "ok", [{"n": 3, "u": "in"}, {"n": 2, "u": "in"}, {"n": 1, "u": "in"}], 0)     # `to` treated like `through`
     res = []
